@@ -225,6 +225,9 @@ func (g *generatorContext) parseModifier(slexer *structLexer, expr node) (node, 
 	default:
 		return expr, nil
 	}
+	if expr == nil {
+		return nil, fmt.Errorf("modifier %q must follow an expression", t.Value)
+	}
 	_, _ = slexer.Next()
 	return out, nil
 }
@@ -252,6 +255,9 @@ func (g *generatorContext) parseCapture(slexer *structLexer) (node, error) {
 	n, err := g.parseTermNoModifiers(slexer, false)
 	if err != nil {
 		return nil, err
+	}
+	if n == nil {
+		return nil, fmt.Errorf("capture must be followed by an expression")
 	}
 	return &capture{field, n}, nil
 }
@@ -372,6 +378,9 @@ func (g *generatorContext) parseNegation(slexer *structLexer) (node, error) {
 	next, err := g.parseTermNoModifiers(slexer, false)
 	if err != nil {
 		return nil, err
+	}
+	if next == nil {
+		return nil, fmt.Errorf("negation must be followed by an expression")
 	}
 	return &negation{next}, nil
 }
